@@ -414,11 +414,11 @@ def h_recacc(P):
     # accumulator-style recursion: the datum reaches the result only through an ARGUMENT of the recursive call
     f = P.func("recacc", params=[("s", "string"), ("acc", "string")], results=["string"])
     f.var("t", "string"); f.var("r", "string")
-    with f.if_oracle():
-        f.ret(["acc"])
-    f.cat("t", "acc", "s")
-    f.call(["r"], "recacc", ["s", "t"])
-    f.ret(["r"])
+    with f.if_oracle():          # recursion only while the decision script says so (exhausted script = false)
+        f.cat("t", "acc", "s")
+        f.call(["r"], "recacc", ["s", "t"])
+        f.ret(["r"])
+    f.ret(["acc"])
     return "recacc"
 
 
